@@ -1,79 +1,750 @@
-//! engine `adapters` (C11) — under construction; `bvh adapters probe` confirms D6/D7/D8
+//! engine `adapters` (C11): CompressorWriter / CompressorReader / BrotliCompress* over scripted
+//! wrapped streams.
+//!
+//! A *case* = adapter kind + own-buffer size(s) + encoder settings + script of the wrapped stream
+//! (per raw call: F full, S<k> at most k bytes, I Interrupted, E<c> hard error, Z Ok(0); then a
+//! tail behaviour that lasts forever) + the caller's call list.  Three runs per case:
+//!   real    the adapter of /repo over `ScriptedWrite`/`ScriptedRead` and a counting own-buffer
+//!           (`slice_mut()` calls are counted: loop structure, and the livelock bound),
+//!   mirror  a transcription of the Lean model (BV/Model/Adapters.lean) over a *shadow* encoder
+//!           with the same settings; it records every encoder call -> the `<trace>` the Lean
+//!           driver replays; every recorded answer is checked against the oracle hypotheses,
+//!   ideal   the real adapter over a wrapped stream that never misbehaves (reference bytes).
+//! Correspondence line: see BV/Drive/Adapters.lean.  Non-trivial case (rule): at least one
+//! non-`F` behaviour was actually consumed by the real run, or a caller size / buffer size of
+//! 0/1 was used; counted once per distinct case.
+//!
+//! Oracles on the real run (search stage): every call returns (livelock = more than LIMIT loop
+//! iterations, detected by counting, never by wall-clock); a hard error or zero-length write of
+//! the wrapped stream makes the enclosing write/flush/read/copy call return Err; the copy
+//! function reports the first read error; bytes handed over up to the first failing call are a
+//! prefix of the ideal run's bytes and equal to them when every call succeeded; the sink then
+//! decodes (crate::dec) to everything written.
+//! Corpus: /verif/corpus/adapters/*.txt, one request line per file (format of ops.txt), run first.
+use crate::prng::Rng;
 use crate::util::*;
-use std::io::{Read, Write};
-use std::sync::atomic::{AtomicU64, Ordering};
-use std::sync::Arc;
+use alloc_no_stdlib::{SliceWrapper, SliceWrapperMut};
+use alloc_stdlib::StandardAlloc;
+use brotli::enc::encode::{BrotliEncoderOperation as EOp, BrotliEncoderParameter as P, BrotliEncoderStateStruct};
+use brotli::enc::BrotliEncoderParams;
+use brotli::{CustomRead, CustomWrite, IntoIoReader};
+use brotli::enc::writer::IntoIoWriter;
+use std::cell::Cell;
+use std::io::{self, ErrorKind, Read, Write};
+use std::panic::{catch_unwind, AssertUnwindSafe};
+use std::rc::Rc;
 
-struct ZeroAfter { sink: Vec<u8>, calls: u64, zero_from: u64, zero_count: u64, log: Vec<String> }
-impl Write for ZeroAfter {
-    fn write(&mut self, b: &[u8]) -> std::io::Result<usize> {
-        let k = self.calls; self.calls += 1;
-        if k >= self.zero_from && k < self.zero_from + self.zero_count { self.log.push(format!("w{}:0", b.len())); return Ok(0); }
-        if self.calls > 100000 { panic!("livelock"); }
-        self.sink.extend_from_slice(b); self.log.push(format!("w{}:{}", b.len(), b.len())); Ok(b.len())
-    }
-    fn flush(&mut self) -> std::io::Result<()> { Ok(()) }
+pub const LIMIT: u64 = 2500; // loop iterations per adapter call (= `fuel` of the Lean driver)
+
+// ------------------------------------------------------------------ scripts
+#[derive(Clone, Copy, Debug, PartialEq)]
+pub enum Beh { F, S(usize), I, E(u32), Z }
+fn beh_str(b: &Beh) -> String { match b { Beh::F => "F".into(), Beh::S(k) => format!("S{}", k), Beh::I => "I".into(), Beh::E(c) => format!("E{}", c), Beh::Z => "Z".into() } }
+fn script_str(s: &[Beh]) -> String { if s.is_empty() { "-".into() } else { s.iter().map(beh_str).collect::<Vec<_>>().join(",") } }
+fn parse_beh(t: &str) -> Beh { match t.as_bytes()[0] { b'F' => Beh::F, b'I' => Beh::I, b'Z' => Beh::Z, b'S' => Beh::S(t[1..].parse().unwrap()), b'E' => Beh::E(t[1..].parse().unwrap()), _ => panic!("bad beh {}", t) } }
+fn parse_script(s: &str) -> Vec<Beh> { if s == "-" { vec![] } else { s.split(',').map(parse_beh).collect() } }
+
+#[derive(Clone, Copy, Debug, PartialEq)]
+pub enum Res { N(usize), I, E(u32) }
+fn res_code(r: &Res) -> u64 { match r { Res::N(k) => 4 * *k as u64, Res::I => 1, Res::E(c) => 4 * *c as u64 + 2 } }
+#[derive(Clone, Debug)]
+pub struct LogE { kind: u8, req: usize, res: Res }
+fn log_hash(log: &[LogE]) -> u64 { let mut h = FNV_INIT; for e in log { h = fnv_step(h, e.kind as u64); h = fnv_step(h, e.req as u64); h = fnv_step(h, res_code(&e.res)); } h }
+fn log_str(log: &[LogE]) -> String { log.iter().map(|e| format!("{}{}:{}", ["w", "r", "f"][e.kind as usize], e.req, match e.res { Res::N(k) => k.to_string(), Res::I => "I".into(), Res::E(c) => format!("E{}", c) })).collect::<Vec<_>>().join(" ") }
+
+struct Livelock;
+fn mkerr(c: u32) -> io::Error { io::Error::new(ErrorKind::Other, format!("E{}", c)) }
+fn err_tok(e: &io::Error) -> String {
+    match e.kind() { ErrorKind::WriteZero => "WZ".into(), ErrorKind::InvalidData => "ID".into(), ErrorKind::UnexpectedEof => "UE".into(), ErrorKind::Other => e.to_string(), k => format!("?{:?}", k) }
 }
 
-pub fn probe() {
-    // ---- D8: zero-length writes in CompressorWriter
-    for nz in 1..=4u64 {
-        let data: Vec<u8> = (0..200000u32).map(|i| (i.wrapping_mul(2654435761) >> 13) as u8).collect();
-        let inner = ZeroAfter { sink: vec![], calls: 0, zero_from: 0, zero_count: 0, log: vec![] };
-        let mut w = brotli::CompressorWriter::new(inner, 64, 1, 18);
-        let mut results = vec![];
-        // make each of the first nz write() calls that reach the sink meet one Ok(0)
-        let mut off = 0;
-        let mut zeros_done = 0;
-        while off < data.len() {
-            let end = (off + 50000).min(data.len());
-            if zeros_done < nz { let c = w.get_ref().calls; let m = w.get_mut(); m.zero_from = c; m.zero_count = 1; zeros_done += 1; }
-            let r = w.write(&data[off..end]);
-            results.push(match &r { Ok(n) => format!("Ok({})", n), Err(e) => format!("Err({:?})", e.kind()) });
-            off = end;
+/// behaviour of the next raw call
+fn next_beh(script: &[Beh], pos: &mut usize, tail: Beh) -> Beh { if *pos < script.len() { *pos += 1; script[*pos - 1] } else { tail } }
+
+#[derive(Clone)]
+pub struct ScriptedWrite { script: Vec<Beh>, pos: usize, tail: Beh, fscript: Vec<Beh>, fpos: usize, got: Vec<u8>, log: Vec<LogE>, max_calls: usize }
+impl ScriptedWrite {
+    fn new(script: &[Beh], tail: Beh, fscript: &[Beh]) -> Self { ScriptedWrite { script: script.to_vec(), pos: 0, tail, fscript: fscript.to_vec(), fpos: 0, got: vec![], log: vec![], max_calls: usize::MAX } }
+}
+impl Write for ScriptedWrite {
+    fn write(&mut self, b: &[u8]) -> io::Result<usize> {
+        if self.log.len() >= self.max_calls { std::panic::panic_any(Livelock); }
+        let beh = next_beh(&self.script, &mut self.pos, self.tail);
+        let (res, ret) = match beh {
+            Beh::F => (Res::N(b.len()), Ok(b.len())),
+            Beh::S(k) => (Res::N(b.len().min(k)), Ok(b.len().min(k))),
+            Beh::I => (Res::I, Err(io::Error::new(ErrorKind::Interrupted, "I"))),
+            Beh::E(c) => (Res::E(c), Err(mkerr(c))),
+            Beh::Z => (Res::N(0), Ok(0)),
+        };
+        if let Ok(k) = ret { self.got.extend_from_slice(&b[..k]); }
+        self.log.push(LogE { kind: 0, req: b.len(), res });
+        ret
+    }
+    fn flush(&mut self) -> io::Result<()> {
+        let beh = if self.fpos < self.fscript.len() { self.fpos += 1; self.fscript[self.fpos - 1] } else { Beh::F };
+        let (res, ret) = match beh { Beh::I => (Res::I, Err(io::Error::new(ErrorKind::Interrupted, "I"))), Beh::E(c) => (Res::E(c), Err(mkerr(c))), _ => (Res::N(0), Ok(())) };
+        self.log.push(LogE { kind: 2, req: 0, res });
+        ret
+    }
+}
+#[derive(Clone)]
+pub struct ScriptedRead { data: Vec<u8>, off: usize, script: Vec<Beh>, pos: usize, tail: Beh, log: Vec<LogE> }
+impl ScriptedRead { fn new(data: &[u8], script: &[Beh], tail: Beh) -> Self { ScriptedRead { data: data.to_vec(), off: 0, script: script.to_vec(), pos: 0, tail, log: vec![] } } }
+impl Read for ScriptedRead {
+    fn read(&mut self, b: &mut [u8]) -> io::Result<usize> {
+        let beh = next_beh(&self.script, &mut self.pos, self.tail);
+        let avail = b.len().min(self.data.len() - self.off);
+        let (res, ret) = match beh {
+            Beh::F => (Res::N(avail), Ok(avail)),
+            Beh::S(k) => (Res::N(avail.min(k)), Ok(avail.min(k))),
+            Beh::I => (Res::I, Err(io::Error::new(ErrorKind::Interrupted, "I"))),
+            Beh::E(c) => (Res::E(c), Err(mkerr(c))),
+            Beh::Z => (Res::N(0), Ok(0)),
+        };
+        if let Ok(k) = ret { b[..k].copy_from_slice(&self.data[self.off..self.off + k]); self.off += k; }
+        self.log.push(LogE { kind: 1, req: b.len(), res });
+        ret
+    }
+}
+
+/// the adapter's own buffer; counts `slice_mut()` calls and raises `Livelock` past the bound
+pub struct CountingBuf { v: Vec<u8>, n: Rc<Cell<u64>>, bound: Rc<Cell<u64>> }
+impl SliceWrapper<u8> for CountingBuf { fn slice(&self) -> &[u8] { &self.v } }
+impl SliceWrapperMut<u8> for CountingBuf {
+    fn slice_mut(&mut self) -> &mut [u8] {
+        self.n.set(self.n.get() + 1);
+        if self.n.get() > self.bound.get() { std::panic::panic_any(Livelock); }
+        &mut self.v
+    }
+}
+
+// ------------------------------------------------------------------ shadow encoder (oracle)
+#[derive(Clone, Copy, PartialEq, Debug)]
+pub enum Op { P, F, X }
+pub struct Ans { consumed: usize, produced: Vec<u8>, ok: bool, more: bool, fin: bool }
+pub struct Shadow { s: BrotliEncoderStateStruct<StandardAlloc>, total_out: Option<usize>, trace: Vec<String>, was_fin: bool, hyp: Vec<String> }
+impl Shadow {
+    fn new(q: u32, lgwin: u32, via_params: bool) -> Self {
+        let mut s = BrotliEncoderStateStruct::new(StandardAlloc::default());
+        if via_params { let mut p = BrotliEncoderParams::default(); p.quality = q as i32; p.lgwin = lgwin as i32; s.params = p; }
+        else { s.set_parameter(P::BROTLI_PARAM_QUALITY, q); s.set_parameter(P::BROTLI_PARAM_LGWIN, lgwin); }
+        Shadow { s, total_out: Some(0), trace: vec![], was_fin: false, hyp: vec![] }
+    }
+    fn step(&mut self, op: Op, input: &[u8], cap: usize) -> Ans {
+        let mut out = vec![0u8; cap];
+        let (mut ai, mut io_, mut ao, mut oo) = (input.len(), 0usize, cap, 0usize);
+        let eop = match op { Op::P => EOp::BROTLI_OPERATION_PROCESS, Op::F => EOp::BROTLI_OPERATION_FLUSH, Op::X => EOp::BROTLI_OPERATION_FINISH };
+        let before_tot = self.s.total_out_;
+        let ok = self.s.compress_stream(eop, &mut ai, input, &mut io_, &mut ao, &mut out, &mut oo, &mut self.total_out, &mut |_a, _b, _c, _d| ());
+        let (more, fin) = (self.s.has_more_output(), self.s.is_finished());
+        // ---- oracle hypotheses (BV/Lemmas/AdaptersHyp.lean), checked on every answer
+        if io_ + ai != input.len() { self.hyp.push(format!("offset/avail mismatch in: off {} avail {} of {}", io_, ai, input.len())); }
+        if oo + ao != cap { self.hyp.push(format!("offset/avail mismatch out: off {} avail {} of {}", oo, ao, cap)); }
+        if ok && cap > 0 {
+            if op == Op::P && !input.is_empty() && io_ == 0 && oo == 0 { self.hyp.push("stall: PROCESS with input and room did nothing".into()); }
+            if op == Op::X && input.is_empty() && oo == 0 && !fin { self.hyp.push("stall: FINISH with room produced nothing and is not finished".into()); }
+            if op == Op::F && input.is_empty() && oo == 0 && more { self.hyp.push("stall: FLUSH with room produced nothing but has more output".into()); }
         }
-        let r = w.flush();
-        results.push(match &r { Ok(_) => "flush Ok".into(), Err(e) => format!("flush Err({:?})", e.kind()) });
-        let inner = w.into_inner();
-        let dec = crate::dec::decode(&inner.sink, 1 << 22);
-        let d = match dec { crate::dec::DResult::Ok(v) => format!("decodes ok, equal={}", v == data), crate::dec::DResult::Error(v) => format!("decode ERROR after {} bytes", v.len()), crate::dec::DResult::NeedsMoreInput(v) => format!("truncated after {}", v.len()), _ => "toobig".into() };
-        println!("D8 zero-writes={} results={:?} sink={} bytes; {}", nz, results, inner.sink.len(), d);
+        if self.was_fin && (io_ != 0 || oo != 0) { self.hyp.push("activity after finished".into()); }
+        if ok && self.s.total_out_ != before_tot + oo as u64 { self.hyp.push(format!("total_out_ {} -> {} but produced {}", before_tot, self.s.total_out_, oo)); }
+        if oo > 0 && self.total_out != Some(self.s.total_out_ as usize) { self.hyp.push("total_out cell not updated on a delivering call".into()); }
+        self.was_fin = fin;
+        out.truncate(oo);
+        self.trace.push(format!("{}{}/{}:{}:{}:{}{}{}:{}", match op { Op::P => 'p', Op::F => 'f', Op::X => 'x' }, input.len(), cap, io_, hex(&out), ok as u8, more as u8, fin as u8, self.total_out.unwrap_or(0)));
+        Ans { consumed: io_, produced: out, ok, more, fin }
     }
-    // ---- D7: copy loop with a writer that returns Ok(0) k times
-    {
-        let data = vec![7u8; 1000];
-        let mut r = &data[..];
-        let mut w = ZeroAfter { sink: vec![], calls: 0, zero_from: 0, zero_count: 50000, log: vec![] };
-        let params = brotli::enc::BrotliEncoderParams::default();
-        let res = std::panic::catch_unwind(std::panic::AssertUnwindSafe(|| brotli::BrotliCompress(&mut r, &mut w, &params)));
-        println!("D7 copy with 50000 x Ok(0): result={:?} inner write calls={}", res.map(|x| x.map_err(|e| e.kind())).map_err(|_| "panic"), w.calls);
-        let mut r = &data[..];
-        let mut w = ZeroAfter { sink: vec![], calls: 0, zero_from: 0, zero_count: u64::MAX / 2, log: vec![] };
-        w.zero_count = 200000; // and then the wrapper panics "livelock" at call 100001.. actually zero path returns before the bound
-        let res = std::panic::catch_unwind(std::panic::AssertUnwindSafe(|| brotli::BrotliCompress(&mut r, &mut w, &params)));
-        println!("D7 copy with 200000 x Ok(0): result={:?} inner write calls={}", res.map(|x| x.map_err(|e| e.kind())).map_err(|_| "panic"), w.calls);
+}
+
+// ------------------------------------------------------------------ mirror of the Lean model
+#[derive(Debug, Clone, PartialEq)]
+pub enum MErr { Inner(u32), WZ, ID, UE }
+fn merr_tok(e: &MErr) -> String { match e { MErr::Inner(c) => format!("E{}", c), MErr::WZ => "WZ".into(), MErr::ID => "ID".into(), MErr::UE => "UE".into() } }
+pub enum Out<T> { Done(T), Panic, Livelock }
+
+/// `Interrupted`-retry wrapper (IntoIoWriter::write etc.)
+fn retry_write(w: &mut ScriptedWrite, data: &[u8]) -> Result<usize, u32> {
+    loop { match w.write(data) { Ok(k) => return Ok(k), Err(e) if e.kind() == ErrorKind::Interrupted => continue, Err(e) => return Err(e.to_string()[1..].parse().unwrap()) } }
+}
+fn retry_flush(w: &mut ScriptedWrite) -> Result<(), u32> {
+    loop { match w.flush() { Ok(()) => return Ok(()), Err(e) if e.kind() == ErrorKind::Interrupted => continue, Err(e) => return Err(e.to_string()[1..].parse().unwrap()) } }
+}
+fn retry_read(r: &mut ScriptedRead, n: usize) -> Result<Vec<u8>, u32> {
+    let mut b = vec![0u8; n];
+    loop { match r.read(&mut b) { Ok(k) => { b.truncate(k); return Ok(b); } Err(e) if e.kind() == ErrorKind::Interrupted => continue, Err(e) => return Err(e.to_string()[1..].parse().unwrap()) } }
+}
+
+pub struct MWriter { std: bool, buf_size: usize, err_invalid: bool, err_zero: bool, enc: Shadow, sink: ScriptedWrite, buf_acc: u64 }
+impl MWriter {
+    fn write_all(&mut self, mut buf: &[u8]) -> Result<(), MErr> {
+        while !buf.is_empty() {
+            match retry_write(&mut self.sink, buf) {
+                Err(c) => return Err(MErr::Inner(c)),
+                Ok(k) => if k != 0 { buf = &buf[k..]; } else {
+                    if self.err_zero { self.err_zero = false; return Err(MErr::WZ); }
+                    if self.err_invalid { self.err_invalid = false; return Err(MErr::ID); }
+                    return Ok(());
+                }
+            }
+        }
+        Ok(())
     }
-    // ---- D6: read(&mut []) in a thread, wall-clock only for this probe
-    {
-        let done = Arc::new(AtomicU64::new(0));
-        let d2 = done.clone();
-        std::thread::spawn(move || {
-            let data = vec![7u8; 1000];
-            let mut rd = brotli::CompressorReader::new(&data[..], 4096, 5, 22);
-            let mut e: [u8; 0] = [];
-            let r = rd.read(&mut e);
-            println!("D6 read(&mut []) returned {:?}", r.map_err(|e| e.kind()));
-            d2.store(1, Ordering::SeqCst);
-        });
-        std::thread::sleep(std::time::Duration::from_secs(3));
-        println!("D6 read(&mut []) returned within 3 s: {}", done.load(Ordering::SeqCst) == 1);
+    fn encode_and_hand_over(&mut self, op: Op, input: &[u8]) -> Option<(Ans, Result<(), MErr>)> {
+        let ans = self.enc.step(op, input, self.buf_size);
+        self.buf_acc += 2;
+        if ans.consumed > input.len() || ans.produced.len() > self.buf_size { return None; }
+        if !ans.produced.is_empty() { let p = ans.produced.clone(); let r = self.write_all(&p); self.buf_acc += 1; Some((ans, r)) } else { Some((ans, Ok(()))) }
     }
+    /// std layer: restock the error values after every Err
+    fn std_write(&mut self, buf: &[u8]) -> Out<Result<usize, MErr>> { let r = self.write(buf); if self.std { if let Out::Done(Err(_)) = &r { self.err_invalid = true; self.err_zero = true; } } r }
+    fn std_flush(&mut self) -> Out<Result<(), MErr>> { let r = self.flush(); if self.std { if let Out::Done(Err(_)) = &r { self.err_invalid = true; self.err_zero = true; } } r }
+    fn write(&mut self, buf: &[u8]) -> Out<Result<usize, MErr>> {
+        let mut rest = buf; let mut fuel = LIMIT;
+        loop {
+            if fuel == 0 { return Out::Livelock; } fuel -= 1;
+            if rest.is_empty() { return Out::Done(Ok(buf.len())); }
+            match self.encode_and_hand_over(Op::P, rest) {
+                None => return Out::Panic,
+                Some((_, Err(e))) => return Out::Done(Err(e)),
+                Some((ans, Ok(()))) => {
+                    if !ans.ok { if self.err_invalid { self.err_invalid = false; return Out::Done(Err(MErr::ID)); } else { return Out::Panic; } }
+                    rest = &rest[ans.consumed..];
+                }
+            }
+        }
+    }
+    fn flush_or_close(&mut self, op: Op) -> Out<Result<(), MErr>> {
+        let mut fuel = LIMIT;
+        loop {
+            if fuel == 0 { return Out::Livelock; } fuel -= 1;
+            match self.encode_and_hand_over(op, &[]) {
+                None => return Out::Panic,
+                Some((_, Err(e))) => return Out::Done(Err(e)),
+                Some((ans, Ok(()))) => {
+                    if !ans.ok { if self.err_invalid { self.err_invalid = false; return Out::Done(Err(MErr::ID)); } else { return Out::Panic; } }
+                    if op == Op::F { if ans.more { continue; } return Out::Done(Ok(())); }
+                    if ans.fin { return Out::Done(Ok(())); }
+                }
+            }
+        }
+    }
+    fn flush(&mut self) -> Out<Result<(), MErr>> {
+        match self.flush_or_close(Op::F) {
+            Out::Done(Ok(())) => match retry_flush(&mut self.sink) { Ok(()) => Out::Done(Ok(())), Err(c) => Out::Done(Err(MErr::Inner(c))) },
+            r => r,
+        }
+    }
+}
+
+pub struct MReader { std: bool, buf: Vec<u8>, input_offset: usize, input_len: usize, eof: bool, err_invalid: bool, enc: Shadow, src: ScriptedRead, buf_acc: u64 }
+impl MReader {
+    fn copy_to_front(&mut self) -> bool {
+        if self.input_len < self.input_offset { return false; }
+        let avail = self.input_len - self.input_offset;
+        if self.input_offset == self.buf.len() { self.input_offset = 0; self.input_len = 0; self.buf_acc += 1; }
+        else if self.input_offset + 256 > self.buf.len() && avail < self.input_offset {
+            if self.buf.len() - self.input_offset < avail { return false; }
+            let (a, b) = self.buf.split_at_mut(self.input_offset);
+            a[..avail].clone_from_slice(&b[..avail]);
+            self.input_len -= self.input_offset; self.input_offset = 0; self.buf_acc += 3;
+        } else { self.buf_acc += 2; }
+        true
+    }
+    fn std_read(&mut self, cap: usize) -> Out<Result<Vec<u8>, MErr>> { let r = self.read(cap); if self.std { if let Out::Done(Err(_)) = &r { self.err_invalid = true; } } r }
+    fn read(&mut self, cap: usize) -> Out<Result<Vec<u8>, MErr>> {
+        if cap == 0 { return Out::Done(Ok(vec![])); }
+        if self.input_len < self.input_offset { return Out::Panic; }
+        let mut fuel = LIMIT;
+        loop {
+            if fuel == 0 { return Out::Livelock; } fuel -= 1;
+            if self.input_len < self.buf.len() && !self.eof {
+                self.buf_acc += 2;
+                match retry_read(&mut self.src, self.buf.len() - self.input_len) {
+                    Err(c) => return Out::Done(Err(MErr::Inner(c))),
+                    Ok(bs) => if bs.is_empty() { self.eof = true; } else { self.buf[self.input_len..self.input_len + bs.len()].copy_from_slice(&bs); self.input_len += bs.len(); }
+                }
+            } else { self.buf_acc += 1; }
+            if self.input_len < self.input_offset { return Out::Panic; }
+            let avail = self.input_len - self.input_offset;
+            let op = if avail == 0 { Op::X } else { Op::P };
+            let input = self.buf[self.input_offset..self.input_offset + avail].to_vec();
+            let ans = self.enc.step(op, &input, cap);
+            self.buf_acc += 1;
+            self.input_offset += ans.consumed;
+            if ans.consumed > avail || ans.produced.len() > cap { return Out::Panic; }
+            if avail - ans.consumed == 0 { if !self.copy_to_front() { return Out::Panic; } }
+            if !ans.ok { if self.err_invalid { self.err_invalid = false; return Out::Done(Err(MErr::ID)); } else { return Out::Panic; } }
+            if ans.fin { return Out::Done(Ok(ans.produced)); }
+            if !ans.produced.is_empty() { return Out::Done(Ok(ans.produced)); }
+        }
+    }
+}
+
+fn mirror_copy(ib: usize, ob: usize, enc: &mut Shadow, src: &mut ScriptedRead, sink: &mut ScriptedWrite) -> Out<Result<usize, MErr>> {
+    if ib == 0 || ob == 0 { return Out::Panic; }
+    let mut ibuf = vec![0u8; ib];
+    let (mut next_in, mut avail_in, mut eof) = (0usize, 0usize, false);
+    let mut pending: Vec<u8> = vec![];
+    let mut read_err: Option<MErr> = None;
+    let mut total_out = 0usize;
+    let mut fuel = LIMIT;
+    loop {
+        if fuel == 0 { return Out::Livelock; } fuel -= 1;
+        if avail_in == 0 && !eof {
+            next_in = 0;
+            match retry_read(src, ib) {
+                Err(c) => { read_err = Some(MErr::Inner(c)); avail_in = 0; eof = true; }
+                Ok(bs) => { if bs.is_empty() { eof = true; } ibuf[..bs.len()].copy_from_slice(&bs); avail_in = bs.len(); }
+            }
+        }
+        let op = if avail_in == 0 { Op::X } else { Op::P };
+        let cap = ob - pending.len();
+        let ans = enc.step(op, &ibuf[next_in..next_in + avail_in], cap);
+        if !ans.produced.is_empty() { total_out = enc.total_out.unwrap(); }
+        if ans.consumed > avail_in || ans.produced.len() > cap { return Out::Panic; }
+        next_in += ans.consumed; avail_in -= ans.consumed; pending.extend_from_slice(&ans.produced);
+        if pending.len() == ob || ans.fin {
+            let mut rest: &[u8] = &pending;
+            while !rest.is_empty() {
+                match retry_write(sink, rest) {
+                    Err(c) => return Out::Done(Err(read_err.unwrap_or(MErr::Inner(c)))),
+                    Ok(0) => return Out::Done(Err(read_err.unwrap_or(MErr::UE))),
+                    Ok(k) => rest = &rest[k..],
+                }
+            }
+            pending.clear();
+        }
+        if !ans.ok { return Out::Done(Err(read_err.unwrap_or(MErr::UE))); }
+        if ans.fin { return match read_err { Some(e) => Out::Done(Err(e)), None => Out::Done(Ok(total_out)) }; }
+    }
+}
+
+// ------------------------------------------------------------------ cases
+#[derive(Clone, Debug)]
+pub enum WCall { Write(Vec<u8>), Flush, Close }
+#[derive(Clone, Debug)]
+pub enum RCall { Read(usize), ToFront }
+#[derive(Clone, Debug)]
+pub enum Case {
+    W { custom_io: bool, buf: usize, q: u32, lgwin: u32, script: Vec<Beh>, tail: Beh, fscript: Vec<Beh>, calls: Vec<WCall> },
+    R { custom_io: bool, buf: usize, q: u32, lgwin: u32, src: Vec<u8>, script: Vec<Beh>, tail: Beh, calls: Vec<RCall> },
+    C { ib: usize, ob: usize, q: u32, lgwin: u32, src: Vec<u8>, rscript: Vec<Beh>, rtail: Beh, wscript: Vec<Beh>, wtail: Beh },
+}
+fn case_prefix(c: &Case) -> String {
+    match c {
+        Case::W { custom_io, buf, q, lgwin, script, tail, fscript, calls } => format!("adapters {} {} q{}w{} {} {} {} {}", if *custom_io { "Wc" } else { "W" }, buf, q, lgwin, script_str(script), beh_str(tail), script_str(fscript),
+            calls.iter().map(|c| match c { WCall::Write(b) => format!("w{}", hex(b)), WCall::Flush => "f".into(), WCall::Close => "c".into() }).collect::<Vec<_>>().join(",")),
+        Case::R { custom_io, buf, q, lgwin, src, script, tail, calls } => format!("adapters {} {} q{}w{} {} {} {} {}", if *custom_io { "Rc" } else { "R" }, buf, q, lgwin, hex(src), script_str(script), beh_str(tail),
+            calls.iter().map(|c| match c { RCall::Read(n) => format!("r{}", n), RCall::ToFront => "t".into() }).collect::<Vec<_>>().join(",")),
+        Case::C { ib, ob, q, lgwin, src, rscript, rtail, wscript, wtail } => format!("adapters C {} {} q{}w{} {} {} {} {} {}", ib, ob, q, lgwin, hex(src), script_str(rscript), beh_str(rtail), script_str(wscript), beh_str(wtail)),
+    }
+}
+pub fn parse_case(line: &str) -> Case {
+    let t: Vec<&str> = line.split(' ').collect();
+    let cfg = |s: &str| -> (u32, u32) { let s = &s[1..]; let mut it = s.split('w'); (it.next().unwrap().parse().unwrap(), it.next().unwrap().parse().unwrap()) };
+    match t[1] {
+        "W" | "Wc" => { let (q, lgwin) = cfg(t[3]); Case::W { custom_io: t[1] == "Wc", buf: t[2].parse().unwrap(), q, lgwin, script: parse_script(t[4]), tail: parse_beh(t[5]), fscript: parse_script(t[6]),
+            calls: t[7].split(',').map(|c| match c.as_bytes()[0] { b'f' => WCall::Flush, b'c' => WCall::Close, _ => WCall::Write(unhex(&c[1..])) }).collect() } }
+        "R" | "Rc" => { let (q, lgwin) = cfg(t[3]); Case::R { custom_io: t[1] == "Rc", buf: t[2].parse().unwrap(), q, lgwin, src: unhex(t[4]), script: parse_script(t[5]), tail: parse_beh(t[6]),
+            calls: t[7].split(',').map(|c| if c == "t" { RCall::ToFront } else { RCall::Read(c[1..].parse().unwrap()) }).collect() } }
+        "C" => { let (q, lgwin) = cfg(t[4]); Case::C { ib: t[2].parse().unwrap(), ob: t[3].parse().unwrap(), q, lgwin, src: unhex(t[5]), rscript: parse_script(t[6]), rtail: parse_beh(t[7]), wscript: parse_script(t[8]), wtail: parse_beh(t[9]) } }
+        x => panic!("bad case kind {}", x),
+    }
+}
+
+/// what one run (real or mirror) shows
+#[derive(Default, Clone)]
+pub struct Obs { results: Vec<String>, log: Vec<LogE>, wlog: Vec<LogE>, acc: Option<u64>, sink: Vec<u8>, left: usize, stopped: bool,
+    /// per adapter call: (index of the first inner log entry made during the call, one past the last); copy: one call
+    spans: Vec<(usize, usize)>, sink_at_first_err: Option<usize>, delivered: Vec<u8> }
+
+fn io_res<T>(r: Result<io::Result<T>, Box<dyn std::any::Any + Send>>, okf: impl Fn(&T) -> String) -> (String, bool) {
+    match r {
+        Ok(Ok(v)) => (okf(&v), false),
+        Ok(Err(e)) => (format!("err:{}", err_tok(&e)), false),
+        Err(p) => (if p.is::<Livelock>() { "livelock".into() } else { "panic".into() }, true),
+    }
+}
+
+trait WLayer { fn w(&mut self, b: &[u8]) -> io::Result<usize>; fn f(&mut self) -> io::Result<()>; fn sink(&self) -> &ScriptedWrite; fn close(self: Box<Self>) -> ScriptedWrite; }
+type StdW = brotli::enc::writer::CompressorWriterCustomAlloc<ScriptedWrite, CountingBuf, StandardAlloc>;
+type CioW = brotli::CompressorWriterCustomIo<io::Error, IntoIoWriter<ScriptedWrite>, CountingBuf, StandardAlloc>;
+impl WLayer for StdW { fn w(&mut self, b: &[u8]) -> io::Result<usize> { self.write(b) } fn f(&mut self) -> io::Result<()> { self.flush() } fn sink(&self) -> &ScriptedWrite { self.get_ref() } fn close(self: Box<Self>) -> ScriptedWrite { (*self).into_inner() } }
+impl WLayer for CioW { fn w(&mut self, b: &[u8]) -> io::Result<usize> { CustomWrite::write(self, b) } fn f(&mut self) -> io::Result<()> { CustomWrite::flush(self) } fn sink(&self) -> &ScriptedWrite { &self.get_ref().0 } fn close(self: Box<Self>) -> ScriptedWrite { (*self).into_inner().0 } }
+
+fn real_writer(custom_io: bool, buf: usize, q: u32, lgwin: u32, script: &[Beh], tail: Beh, fscript: &[Beh], calls: &[WCall]) -> Obs {
+    let n = Rc::new(Cell::new(0u64)); let bound = Rc::new(Cell::new(u64::MAX));
+    let cb = CountingBuf { v: vec![0u8; buf], n: n.clone(), bound: bound.clone() };
+    let sw = ScriptedWrite::new(script, tail, fscript);
+    let mut w: Option<Box<dyn WLayer>> = Some(if custom_io {
+        Box::new(CioW::new(IntoIoWriter(sw), cb, StandardAlloc::default(), io::Error::new(ErrorKind::InvalidData, "Invalid Data"), io::Error::new(ErrorKind::WriteZero, "No room in output."), q, lgwin))
+    } else { Box::new(StdW::new(sw, cb, StandardAlloc::default(), q, lgwin)) });
+    let mut o = Obs::default();
+    let mut final_sink: Option<ScriptedWrite> = None;
+    for c in calls {
+        bound.set(n.get() + 3 * LIMIT + 8);
+        let before = w.as_ref().map(|x| x.sink().log.len()).unwrap_or(0);
+        let (tok, stop) = match c {
+            WCall::Write(b) => io_res(catch_unwind(AssertUnwindSafe(|| w.as_mut().unwrap().w(b))), |n| format!("ok{}", n)),
+            WCall::Flush => io_res(catch_unwind(AssertUnwindSafe(|| w.as_mut().unwrap().f())), |_| "ok".into()),
+            WCall::Close => { let x = w.take().unwrap(); match catch_unwind(AssertUnwindSafe(move || x.close())) { Ok(s) => { final_sink = Some(s); ("ok".into(), false) } Err(p) => (if p.is::<Livelock>() { "livelock".into() } else { "panic".into() }, true) } }
+        };
+        let s = final_sink.as_ref().or(w.as_ref().map(|x| x.sink()));
+        if let Some(s) = s { o.spans.push((before, s.log.len())); if tok.starts_with("err") && o.sink_at_first_err.is_none() { o.sink_at_first_err = Some(s.got.len()); } }
+        o.results.push(tok);
+        if stop { o.stopped = true; break; }
+    }
+    if let Some(x) = w.take() { if o.stopped { bound.set(u64::MAX); let s = x.sink().clone(); o.log = s.log; o.sink = s.got; std::mem::forget(x); } else { let s = x.sink().clone(); o.log = s.log; o.sink = s.got; bound.set(u64::MAX); drop(x); } }
+    if let Some(s) = final_sink { o.log = s.log; o.sink = s.got; }
+    o.acc = if o.stopped { None } else { Some(n.get()) };
+    o
+}
+
+fn mirror_writer(custom_io: bool, buf: usize, q: u32, lgwin: u32, script: &[Beh], tail: Beh, fscript: &[Beh], calls: &[WCall]) -> (Obs, Shadow) {
+    let mut m = MWriter { std: !custom_io, buf_size: buf, err_invalid: true, err_zero: true, enc: Shadow::new(q, lgwin, false), sink: ScriptedWrite::new(script, tail, fscript), buf_acc: 0 };
+    let mut o = Obs::default();
+    for c in calls {
+        let (tok, stop) = match c {
+            WCall::Write(b) => match m.std_write(b) { Out::Done(Ok(n)) => (format!("ok{}", n), false), Out::Done(Err(e)) => (format!("err:{}", merr_tok(&e)), false), Out::Panic => ("panic".into(), true), Out::Livelock => ("livelock".into(), true) },
+            WCall::Flush => match m.std_flush() { Out::Done(Ok(())) => ("ok".into(), false), Out::Done(Err(e)) => (format!("err:{}", merr_tok(&e)), false), Out::Panic => ("panic".into(), true), Out::Livelock => ("livelock".into(), true) },
+            WCall::Close => match m.flush_or_close(Op::X) { Out::Done(_) => ("ok".into(), false), Out::Panic => ("panic".into(), true), Out::Livelock => ("livelock".into(), true) },
+        };
+        o.results.push(tok);
+        if stop { o.stopped = true; break; }
+    }
+    o.log = m.sink.log.clone(); o.sink = m.sink.got.clone(); o.acc = if o.stopped { None } else { Some(m.buf_acc) };
+    (o, m.enc)
+}
+
+trait RLayer { fn r(&mut self, b: &mut [u8]) -> io::Result<usize>; fn tofront(&mut self); fn src(&self) -> &ScriptedRead; }
+type StdR = brotli::enc::reader::CompressorReaderCustomAlloc<ScriptedRead, CountingBuf, StandardAlloc>;
+type CioR = brotli::CompressorReaderCustomIo<io::Error, IntoIoReader<ScriptedRead>, CountingBuf, StandardAlloc>;
+impl RLayer for StdR { fn r(&mut self, b: &mut [u8]) -> io::Result<usize> { self.read(b) } fn tofront(&mut self) { panic!("copy_to_front is not reachable through the std layer") } fn src(&self) -> &ScriptedRead { self.get_ref() } }
+impl RLayer for CioR { fn r(&mut self, b: &mut [u8]) -> io::Result<usize> { CustomRead::read(self, b) } fn tofront(&mut self) { self.copy_to_front() } fn src(&self) -> &ScriptedRead { &self.get_ref().0 } }
+
+fn real_reader(custom_io: bool, buf: usize, q: u32, lgwin: u32, src: &[u8], script: &[Beh], tail: Beh, calls: &[RCall]) -> Obs {
+    let n = Rc::new(Cell::new(0u64)); let bound = Rc::new(Cell::new(u64::MAX));
+    let cb = CountingBuf { v: vec![0u8; buf], n: n.clone(), bound: bound.clone() };
+    let sr = ScriptedRead::new(src, script, tail);
+    let mut r: Box<dyn RLayer> = if custom_io { Box::new(CioR::new(IntoIoReader(sr), cb, StandardAlloc::default(), io::Error::new(ErrorKind::InvalidData, "Invalid Data"), q, lgwin)) } else { Box::new(StdR::new(sr, cb, StandardAlloc::default(), q, lgwin)) };
+    let mut o = Obs::default();
+    for c in calls {
+        bound.set(n.get() + 5 * LIMIT + 8);
+        let before = r.src().log.len();
+        let (tok, stop) = match c {
+            RCall::Read(k) => { let mut b = vec![0u8; *k]; let res = catch_unwind(AssertUnwindSafe(|| r.r(&mut b))); if let Ok(Ok(m)) = &res { o.delivered.extend_from_slice(&b[..*m]); } let bb = b.clone(); io_res(res, move |m| format!("ok:{}", hex(&bb[..*m]))) }
+            RCall::ToFront => match catch_unwind(AssertUnwindSafe(|| r.tofront())) { Ok(()) => ("-".into(), false), Err(p) => (if p.is::<Livelock>() { "livelock".into() } else { "panic".into() }, true) },
+        };
+        o.spans.push((before, r.src().log.len()));
+        o.results.push(tok);
+        if stop { o.stopped = true; break; }
+    }
+    o.log = r.src().log.clone(); o.left = r.src().data.len() - r.src().off; o.acc = if o.stopped { None } else { Some(n.get()) };
+    bound.set(u64::MAX);
+    if o.stopped { std::mem::forget(r); }
+    o
+}
+
+fn mirror_reader(custom_io: bool, buf: usize, q: u32, lgwin: u32, src: &[u8], script: &[Beh], tail: Beh, calls: &[RCall]) -> (Obs, Shadow) {
+    let mut m = MReader { std: !custom_io, buf: vec![0u8; buf], input_offset: 0, input_len: 0, eof: false, err_invalid: true, enc: Shadow::new(q, lgwin, false), src: ScriptedRead::new(src, script, tail), buf_acc: 0 };
+    let mut o = Obs::default();
+    for c in calls {
+        let (tok, stop) = match c {
+            RCall::Read(k) => match m.std_read(*k) { Out::Done(Ok(b)) => (format!("ok:{}", hex(&b)), false), Out::Done(Err(e)) => (format!("err:{}", merr_tok(&e)), false), Out::Panic => ("panic".into(), true), Out::Livelock => ("livelock".into(), true) },
+            RCall::ToFront => if m.copy_to_front() { ("-".into(), false) } else { ("panic".into(), true) },
+        };
+        o.results.push(tok);
+        if stop { o.stopped = true; break; }
+    }
+    o.log = m.src.log.clone(); o.left = m.src.data.len() - m.src.off; o.acc = if o.stopped { None } else { Some(m.buf_acc) };
+    (o, m.enc)
+}
+
+fn real_copy(ib: usize, ob: usize, q: u32, lgwin: u32, src: &[u8], rscript: &[Beh], rtail: Beh, wscript: &[Beh], wtail: Beh) -> Obs {
+    let mut r = ScriptedRead::new(src, rscript, rtail);
+    let mut w = ScriptedWrite::new(wscript, wtail, &[]);
+    w.max_calls = (LIMIT as usize) * 4; // the drain loop is the only place that can spin on the sink
+    let mut p = BrotliEncoderParams::default(); p.quality = q as i32; p.lgwin = lgwin as i32;
+    let mut ibuf = vec![0u8; ib]; let mut obuf = vec![0u8; ob];
+    let res = catch_unwind(AssertUnwindSafe(|| brotli::BrotliCompressCustomAlloc(&mut r, &mut w, &mut ibuf[..], &mut obuf[..], &p, StandardAlloc::default())));
+    let mut o = Obs::default();
+    let (tok, stop) = io_res(res, |n| format!("ok{}", n));
+    if tok.starts_with("err") { o.sink_at_first_err = Some(w.got.len()); }
+    o.results.push(tok); o.stopped = stop;
+    o.spans.push((0, r.log.len()));
+    o.left = r.data.len() - r.off; o.log = r.log; o.wlog = w.log; o.sink = w.got;
+    o
+}
+
+fn obs_line(kind: char, o: &Obs, enc_calls: usize, bad: bool) -> String {
+    let res = if o.results.is_empty() { "-".to_string() } else { o.results.join(",") };
+    let f = |x: Option<u64>| x.map(|v| v.to_string()).unwrap_or("-".into());
+    match kind {
+        'W' => format!("{} n={} h={} acc={} enc={} bad={} sink={}", res, o.log.len(), log_hash(&o.log), f(o.acc), if o.stopped { "-".into() } else { enc_calls.to_string() }, bad as u8, hex(&o.sink)),
+        'R' => format!("{} n={} h={} acc={} enc={} bad={} left={}", res, o.log.len(), log_hash(&o.log), f(o.acc), if o.stopped { "-".into() } else { enc_calls.to_string() }, bad as u8, o.left),
+        _ => format!("{} rn={} rh={} wn={} wh={} enc={} bad={} sink={}", res, o.log.len(), log_hash(&o.log), o.wlog.len(), log_hash(&o.wlog), if o.stopped { "-".into() } else { enc_calls.to_string() }, bad as u8, hex(&o.sink)),
+    }
+}
+
+/// run one case: correspondence pair + oracles
+pub fn run_case(c: &Case, rep: &mut Report, verbose: bool) -> (String, String) {
+    let prefix = case_prefix(c);
+    let case_json = |extra: &str| format!("{{\"line\":{}{}}}", jstr(&prefix), extra);
+    rep.evaluations += 1;
+    let mut nontrivial = false;
+    let (real, mirror, shadow, ideal, kind, written): (Obs, Obs, Shadow, Obs, char, Vec<u8>) = match c {
+        Case::W { custom_io, buf, q, lgwin, script, tail, fscript, calls } => {
+            let real = real_writer(*custom_io, *buf, *q, *lgwin, script, *tail, fscript, calls);
+            let (m, sh) = mirror_writer(*custom_io, *buf, *q, *lgwin, script, *tail, fscript, calls);
+            let ideal = real_writer(*custom_io, *buf, *q, *lgwin, &[], Beh::F, &[], calls);
+            let mut written = vec![]; for c in calls { if let WCall::Write(b) = c { written.extend_from_slice(b); if b.is_empty() { rep.count("w.caller_size_0"); nontrivial = true; } } }
+            if *buf == 1 { rep.count("w.own_buffer_1"); nontrivial = true; }
+            rep.count(if *custom_io { "w.layer.custom_io" } else { "w.layer.std" });
+            (real, m, sh, ideal, 'W', written)
+        }
+        Case::R { custom_io, buf, q, lgwin, src, script, tail, calls } => {
+            let real = real_reader(*custom_io, *buf, *q, *lgwin, src, script, *tail, calls);
+            let (m, sh) = mirror_reader(*custom_io, *buf, *q, *lgwin, src, script, *tail, calls);
+            let ideal = real_reader(*custom_io, *buf, *q, *lgwin, src, &[], Beh::F, calls);
+            if *buf == 1 { rep.count("r.own_buffer_1"); nontrivial = true; }
+            if calls.iter().any(|c| matches!(c, RCall::Read(0))) { rep.count("r.caller_size_0"); nontrivial = true; }
+            if calls.iter().any(|c| matches!(c, RCall::ToFront)) { rep.count("r.copy_to_front_calls"); }
+            rep.count(if *custom_io { "r.layer.custom_io" } else { "r.layer.std" });
+            (real, m, sh, ideal, 'R', src.clone())
+        }
+        Case::C { ib, ob, q, lgwin, src, rscript, rtail, wscript, wtail } => {
+            let real = real_copy(*ib, *ob, *q, *lgwin, src, rscript, *rtail, wscript, *wtail);
+            let mut sh = Shadow::new(*q, *lgwin, true);
+            let mut r = ScriptedRead::new(src, rscript, *rtail); let mut w = ScriptedWrite::new(wscript, *wtail, &[]);
+            let out = mirror_copy(*ib, *ob, &mut sh, &mut r, &mut w);
+            let mut m = Obs::default();
+            let (tok, stop) = match out { Out::Done(Ok(n)) => (format!("ok{}", n), false), Out::Done(Err(e)) => (format!("err:{}", merr_tok(&e)), false), Out::Panic => ("panic".into(), true), Out::Livelock => ("livelock".into(), true) };
+            m.results.push(tok); m.stopped = stop; m.left = r.data.len() - r.off; m.log = r.log; m.wlog = w.log; m.sink = w.got;
+            let ideal = real_copy(*ib, *ob, *q, *lgwin, src, &[], Beh::F, &[], Beh::F);
+            if *ib == 1 || *ob == 1 { rep.count("c.own_buffer_1"); nontrivial = true; }
+            (real, m, sh, ideal, 'C', src.clone())
+        }
+    };
+    // ---- correspondence pair (request = case + recorded encoder trace; answer = the REAL run)
+    let trace = if shadow.trace.is_empty() { "-".to_string() } else { shadow.trace.join(";") };
+    let ops = format!("{} {}", prefix, trace);
+    let enc_calls = shadow.trace.len();
+    let imp = obs_line(kind, &real, enc_calls, false);
+    let mir = obs_line(kind, &mirror, enc_calls, false);
+    if verbose {
+        println!("real  : {}\n        log: {}\n        wlog: {}", imp, log_str(&real.log), log_str(&real.wlog));
+        println!("mirror: {}\n        log: {}\n        wlog: {}", mir, log_str(&mirror.log), log_str(&mirror.wlog));
+        println!("ideal : {}", obs_line(kind, &ideal, 0, false));
+        println!("trace : {}", trace);
+    }
+    // ---- coverage
+    for e in real.log.iter().chain(real.wlog.iter()) {
+        match e.res { Res::I => { rep.count("inner.interrupted"); nontrivial = true; } Res::E(_) => { rep.count("inner.hard_error"); nontrivial = true; } Res::N(0) if e.kind == 0 => { rep.count("inner.zero_length_write"); nontrivial = true; } Res::N(k) if k < e.req && e.kind == 0 => { rep.count("inner.short_write"); nontrivial = true; } Res::N(k) if k < e.req && e.kind == 1 => { rep.count("inner.short_or_last_read"); } _ => {} }
+    }
+    for t in &real.results { rep.count(&format!("result.{}", if t.starts_with("ok") { "ok" } else if t.starts_with("err") { &t[..] } else { &t[..] })); }
+    rep.add("encoder_calls_replayed", enc_calls as u64);
+    // ---- the oracle hypotheses must hold for what the shadow encoder answered
+    for h in &shadow.hyp { rep.violation("adapters:oracle-hypothesis", &format!("the encoder broke a hypothesis the C11 theorems assume: {}", h), case_json("")); }
+    // ---- real vs mirror (the mirror produced the trace: if they differ the trace is not the real one)
+    if imp != mir { rep.violation("adapters:mirror-mismatch", &format!("real adapter and transcribed model differ: real [{}] mirror [{}]", imp.chars().take(300).collect::<String>(), mir.chars().take(300).collect::<String>()), case_json("")); }
+    // ---- property oracles on the real run
+    let zero_write = |e: &LogE| e.kind == 0 && e.res == Res::N(0) && e.req > 0;
+    for (i, t) in real.results.iter().enumerate() {
+        if t == "livelock" {
+            let sig = match c {
+                Case::R { calls, .. } if matches!(calls.get(i), Some(RCall::Read(0))) => "adapters:reader:empty-buffer-never-returns",
+                Case::C { .. } if real.wlog.iter().any(zero_write) => "adapters:copy:zero-length-write-spins",
+                _ => "adapters:livelock",
+            };
+            rep.violation(sig, &format!("call #{} did not return within {} loop iterations", i, LIMIT), case_json(&format!(",\"call\":{}", i)));
+        }
+        if t == "panic" { rep.violation("adapters:panic", &format!("call #{} panicked", i), case_json(&format!(",\"call\":{}", i))); }
+    }
+    // error_reported
+    match c {
+        Case::W { calls, .. } => for (i, sp) in real.spans.iter().enumerate() {
+            if matches!(calls[i], WCall::Close) { continue; } // into_inner has no Result (documented API)
+            let bad_ev = real.log[sp.0..sp.1].iter().find(|e| matches!(e.res, Res::E(_)) || zero_write(e));
+            if let Some(ev) = bad_ev { if real.results[i].starts_with("ok") {
+                let nth = real.log[..sp.1].iter().filter(|e| zero_write(e)).count();
+                let sig = if zero_write(ev) { if nth >= 3 { "adapters:writer:zero-length-write-swallowed:third-or-later" } else { "adapters:writer:zero-length-write-swallowed" } } else { "adapters:writer:hard-error-swallowed" };
+                rep.violation(sig, &format!("call #{} returned {} although the wrapped writer answered {:?} to a write of {} bytes", i, real.results[i], ev.res, ev.req), case_json(&format!(",\"call\":{}", i)));
+            } }
+        },
+        Case::R { .. } => for (i, sp) in real.spans.iter().enumerate() {
+            if real.log[sp.0..sp.1].iter().any(|e| matches!(e.res, Res::E(_))) && real.results[i].starts_with("ok") { rep.violation("adapters:reader:hard-error-swallowed", &format!("read #{} returned {} although the wrapped reader failed", i, real.results[i]), case_json("")); }
+        },
+        Case::C { .. } => {
+            let rerr = real.log.iter().find_map(|e| if let Res::E(c) = e.res { Some(c) } else { None });
+            let werr = real.wlog.iter().find(|e| matches!(e.res, Res::E(_)) || zero_write(e));
+            let t = &real.results[0];
+            if let Some(cde) = rerr { if *t != format!("err:E{}", cde) && !real.stopped { rep.violation("adapters:copy:first-read-error-not-reported", &format!("the wrapped reader failed with E{} but the copy returned {}", cde, t), case_json("")); } }
+            else if let Some(ev) = werr { if t.starts_with("ok") { rep.violation(if zero_write(ev) { "adapters:copy:zero-length-write-swallowed" } else { "adapters:copy:hard-error-swallowed" }, &format!("the wrapped writer answered {:?} but the copy returned {}", ev.res, t), case_json("")); } }
+        }
+    }
+    // transparency / completeness
+    let any_fault = real.log.iter().chain(real.wlog.iter()).any(|e| matches!(e.res, Res::E(_)) || zero_write(e)) || real.results.iter().any(|t| !t.starts_with("ok") && t != "-");
+    let premature_eof = real.log.iter().any(|e| e.kind == 1 && e.res == Res::N(0)) && real.left > 0;
+    let ideal_bytes: &[u8] = if kind == 'R' { &ideal.delivered } else { &ideal.sink };
+    let real_bytes: &[u8] = if kind == 'R' { &real.delivered } else { &real.sink };
+    if !real.stopped && !ideal.stopped {
+        if !any_fault && !premature_eof {
+            if real_bytes != ideal_bytes { rep.violation("adapters:bytes-depend-on-short-io", &format!("every call succeeded but the bytes delivered differ from the run over a well-behaved stream ({} vs {} bytes, first difference at {})", real_bytes.len(), ideal_bytes.len(), crate::dec::first_diff(real_bytes, ideal_bytes)), case_json("")); }
+            let closed = match c { Case::W { calls, .. } => matches!(calls.last(), Some(WCall::Close)), Case::R { .. } => real.results.last().map(|t| t == "ok:-").unwrap_or(false) && !matches!(c, Case::R { calls, .. } if matches!(calls.last(), Some(RCall::Read(0)))), Case::C { .. } => true };
+            if closed { match crate::dec::decode(real_bytes, written.len() + 65536) { crate::dec::DResult::Ok(v) if v == written => { rep.count("roundtrip.ok"); } other => { rep.violation("adapters:complete-stream-does-not-decode", &format!("every call succeeded and the stream was closed, but the delivered bytes do not decode to what was written: {:?}", match other { crate::dec::DResult::Ok(v) => format!("decoded {} bytes, expected {}", v.len(), written.len()), crate::dec::DResult::Error(v) => format!("error after {}", v.len()), crate::dec::DResult::NeedsMoreInput(v) => format!("truncated after {}", v.len()), _ => "too big".into() }), case_json("")); } } }
+        } else if kind != 'R' {
+            let upto = real.sink_at_first_err.unwrap_or(real.sink.len()).min(real.sink.len());
+            if !premature_eof && !ideal.sink.starts_with(&real.sink[..upto]) { rep.violation("adapters:not-a-prefix", "the bytes handed to the sink before the first failing call are not a prefix of the well-behaved run's bytes", case_json("")); }
+            else { rep.count("prefix_checked"); }
+        }
+    }
+    if nontrivial { rep.nontrivial += 1; }
+    (ops, imp)
+}
+
+// ------------------------------------------------------------------ generators
+fn gen_data(rng: &mut Rng, n: usize) -> Vec<u8> {
+    match rng.below(4) {
+        0 => (0..n).map(|_| rng.below(256) as u8).collect(),
+        1 => (0..n).map(|i| b"the quick brown fox jumps over the lazy dog "[i % 44]).collect(),
+        2 => { let a = rng.below(256) as u8; vec![a; n] }
+        _ => (0..n).map(|i| if rng.chance(1, 8) { rng.below(256) as u8 } else { (i * 7 % 251) as u8 }).collect(),
+    }
+}
+fn gen_beh(rng: &mut Rng, code: &mut u32) -> Beh {
+    match rng.below(10) { 0..=3 => Beh::F, 4 | 5 => Beh::S(rng.range(1, 9) as usize), 6 | 7 => Beh::I, 8 => { *code += 1; Beh::E(*code) } _ => Beh::Z }
+}
+fn gen_script(rng: &mut Rng, max_len: u64, faulty: bool, code: &mut u32) -> Vec<Beh> {
+    let n = rng.below(max_len + 1);
+    (0..n).map(|_| { let b = gen_beh(rng, code); if !faulty && matches!(b, Beh::E(_) | Beh::Z) { Beh::S(1) } else { b } }).collect()
+}
+fn gen_tail(rng: &mut Rng, faulty: bool) -> Beh { if faulty { *rng.pick(&[Beh::F, Beh::F, Beh::S(1), Beh::S(3), Beh::Z, Beh::E(99)]) } else { *rng.pick(&[Beh::F, Beh::F, Beh::S(1), Beh::S(5)]) } }
+fn gen_q(rng: &mut Rng) -> (u32, u32) { (*rng.pick(&[0u32, 1, 2, 3, 5, 5, 9]), *rng.pick(&[10u32, 12, 16, 18])) }
+
+fn gen_case(rng: &mut Rng) -> Case {
+    let faulty = rng.chance(1, 2);
+    let (q, lgwin) = gen_q(rng);
+    let mut code = 0u32;
+    let small_buf = rng.chance(1, 3);
+    match rng.below(3) {
+        0 => {
+            let buf = if small_buf { rng.range(1, 3) as usize } else { *rng.pick(&[7usize, 64, 300, 4096]) };
+            let budget = if buf < 4 { 500 } else { 3000 };
+            let ncalls = rng.range(1, 5);
+            let mut calls = vec![]; let mut total = 0usize;
+            for _ in 0..ncalls {
+                if rng.chance(1, 4) { calls.push(WCall::Flush); }
+                let n = match rng.below(6) { 0 => 0, 1 => 1, _ => rng.range(2, (budget / ncalls as usize) as u64) as usize };
+                total += n; calls.push(WCall::Write(gen_data(rng, n)));
+            }
+            if rng.chance(1, 3) { calls.push(WCall::Flush); }
+            calls.push(WCall::Close);
+            let _ = total;
+            Case::W { custom_io: rng.chance(1, 3), buf, q, lgwin, script: gen_script(rng, 30, faulty, &mut code), tail: gen_tail(rng, faulty), fscript: if rng.chance(1, 3) { vec![*rng.pick(&[Beh::I, Beh::E(77), Beh::F])] } else { vec![] }, calls }
+        }
+        1 => {
+            let buf = if small_buf { rng.range(1, 3) as usize } else { *rng.pick(&[7usize, 64, 255, 256, 257, 300, 4096]) };
+            let n = if buf < 4 { rng.below(400) } else { rng.below(3000) } as usize;
+            let src = gen_data(rng, n);
+            let custom_io = rng.chance(1, 3);
+            let mut calls = vec![];
+            let sz = *rng.pick(&[1usize, 2, 5, 64, 1000, 5000]);
+            let nreads = (n / sz.max(1) + 6).min(if sz < 4 { 700 } else { 200 });
+            for _ in 0..nreads { if custom_io && rng.chance(1, 10) { calls.push(RCall::ToFront); } calls.push(RCall::Read(if rng.chance(1, 12) { 0 } else if rng.chance(1, 4) { rng.range(1, sz as u64) as usize } else { sz })); }
+            // finish with generous reads so that well-behaved runs reach Ok(0)
+            for _ in 0..3 { calls.push(RCall::Read(8192)); }
+            Case::R { custom_io, buf, q, lgwin, src, script: gen_script(rng, 30, faulty, &mut code), tail: gen_tail(rng, faulty), calls }
+        }
+        _ => {
+            let ib = if small_buf { rng.range(1, 3) as usize } else { *rng.pick(&[7usize, 64, 4096]) };
+            let ob = if rng.chance(1, 3) { rng.range(1, 3) as usize } else { *rng.pick(&[7usize, 64, 4096]) };
+            let n = if ib < 4 || ob < 4 { rng.below(400) } else { rng.below(3000) } as usize;
+            Case::C { ib, ob, q, lgwin, src: gen_data(rng, n), rscript: gen_script(rng, 20, faulty, &mut code), rtail: gen_tail(rng, faulty), wscript: gen_script(rng, 20, faulty, &mut code), wtail: gen_tail(rng, faulty) }
+        }
+    }
+}
+
+/// every behaviour at every call index of a short base case: scripts F^i·b, i < number of inner
+/// calls of the well-behaved run (+2), b ∈ {S1, I, E, Z}; tails F and (for i = 0) Z / E
+fn exhaustive_cases(thorough: bool) -> Vec<Case> {
+    let mut v = vec![];
+    let data: Vec<u8> = (0..120u32).map(|i| (i * 37 % 251) as u8).collect();
+    let behs = [Beh::S(1), Beh::I, Beh::E(7), Beh::Z];
+    let bufs: &[usize] = if thorough { &[1, 2, 3, 16, 64] } else { &[1, 3, 64] };
+    for &buf in bufs { for &(q, lgwin) in &[(1u32, 10u32), (5, 10)] {
+        let calls = vec![WCall::Write(data[..50].to_vec()), WCall::Flush, WCall::Write(vec![]), WCall::Write(data[50..].to_vec()), WCall::Close];
+        let base = real_writer(false, buf, q, lgwin, &[], Beh::F, &[], &calls);
+        let n = base.log.iter().filter(|e| e.kind == 0).count() + 2;
+        let step = if thorough || n < 40 { 1 } else { n / 40 };
+        for i in (0..n).step_by(step) { for b in behs { let mut s = vec![Beh::F; i]; s.push(b); v.push(Case::W { custom_io: false, buf, q, lgwin, script: s, tail: Beh::F, fscript: vec![], calls: calls.clone() }); } }
+        // two and three zero-length writes in different calls (error values are handed out once)
+        for (i, j, k) in [(0usize, 1usize, 2usize), (0, n / 2, n - 2), (1, 2, 3)] { let mut s = vec![Beh::F; n + 1]; s[i] = Beh::Z; s[j.min(n)] = Beh::Z; s[k.min(n)] = Beh::Z; v.push(Case::W { custom_io: false, buf, q, lgwin, script: s.clone(), tail: Beh::F, fscript: vec![], calls: calls.clone() }); v.push(Case::W { custom_io: true, buf, q, lgwin, script: s, tail: Beh::F, fscript: vec![], calls: calls.clone() }); }
+        for t in [Beh::Z, Beh::E(9), Beh::S(1)] { v.push(Case::W { custom_io: false, buf, q, lgwin, script: vec![], tail: t, fscript: vec![Beh::I, Beh::E(5)], calls: calls.clone() }); }
+        // reader
+        let rcalls: Vec<RCall> = [0usize, 1, 7, 0, 64, 64, 64, 64, 64, 0, 64, 64].iter().map(|k| RCall::Read(*k)).collect();
+        let baser = real_reader(false, buf, q, lgwin, &data, &[], Beh::F, &rcalls[1..]);
+        let n = baser.log.len() + 2;
+        let step = if thorough || n < 40 { 1 } else { n / 40 };
+        for i in (0..n).step_by(step) { for b in behs { let mut s = vec![Beh::F; i]; s.push(b); v.push(Case::R { custom_io: false, buf, q, lgwin, src: data.clone(), script: s, tail: Beh::F, calls: rcalls[1..].to_vec() }); } }
+        v.push(Case::R { custom_io: false, buf, q, lgwin, src: data.clone(), script: vec![], tail: Beh::F, calls: rcalls.clone() }); // starts with read(&mut [])
+        v.push(Case::R { custom_io: false, buf, q, lgwin, src: vec![], script: vec![], tail: Beh::F, calls: vec![RCall::Read(0), RCall::Read(5), RCall::Read(5)] });
+        // copy
+        for &ob in bufs {
+            let basec = real_copy(buf, ob, q, lgwin, &data, &[], Beh::F, &[], Beh::F);
+            let (nr, nw) = (basec.log.len() + 1, basec.wlog.len() + 1);
+            let stepr = if thorough || nr < 20 { 1 } else { nr / 20 }; let stepw = if thorough || nw < 20 { 1 } else { nw / 20 };
+            for i in (0..nr).step_by(stepr) { for b in behs { let mut s = vec![Beh::F; i]; s.push(b); v.push(Case::C { ib: buf, ob, q, lgwin, src: data.clone(), rscript: s, rtail: Beh::F, wscript: vec![], wtail: Beh::F }); } }
+            for i in (0..nw).step_by(stepw) { for b in behs { let mut s = vec![Beh::F; i]; s.push(b); v.push(Case::C { ib: buf, ob, q, lgwin, src: data.clone(), rscript: vec![], rtail: Beh::F, wscript: s, wtail: Beh::F }); } }
+            // read error AND write error: the first read error must win
+            v.push(Case::C { ib: buf, ob, q, lgwin, src: data.clone(), rscript: vec![Beh::F, Beh::E(3)], rtail: Beh::F, wscript: vec![Beh::E(4)], wtail: Beh::F });
+            v.push(Case::C { ib: buf, ob, q, lgwin, src: data.clone(), rscript: vec![], rtail: Beh::F, wscript: vec![], wtail: Beh::Z }); // permanently full sink
+        }
+    } }
+    v
 }
 
 pub fn run_cmd(args: &Args) {
-    if args.rest.get(0).map(|s| s.as_str()) == Some("probe") { probe(); std::process::exit(0); }
-    let corr = Corr::new(&args.out);
-    let rep = Report::default();
+    if args.rest.get(0).map(|s| s.as_str()) == Some("one") {
+        let line = args.rest[1..].join(" ");
+        let mut rep = Report::default();
+        let (ops, imp) = run_case(&parse_case(&line), &mut rep, true);
+        println!("ops   : {}\nimpl  : {}", ops.chars().take(400).collect::<String>(), imp);
+        for v in &rep.violations { println!("VIOLATION {} — {}", v.signature, v.what); }
+        return;
+    }
+    std::panic::set_hook(Box::new(|_| {}));
+    let thorough = args.tier == "thorough";
+    let mut corr = Corr::new(&args.out);
+    let mut rep = Report::default();
+    // ---- corpus first
+    let mut cases: Vec<Case> = vec![];
+    if let Ok(rd) = std::fs::read_dir("/verif/corpus/adapters") {
+        let mut files: Vec<_> = rd.filter_map(|e| e.ok()).map(|e| e.path()).collect(); files.sort();
+        for f in files { if let Ok(t) = std::fs::read_to_string(&f) { for l in t.lines() { if l.starts_with("adapters ") { cases.push(parse_case(l)); rep.count("corpus_cases"); } } } }
+    }
+    let ex = exhaustive_cases(thorough);
+    rep.add("exhaustive_single_fault_cases", ex.len() as u64);
+    cases.extend(ex);
+    let nrand = if thorough { 40000 } else { 3000 };
+    let seed = args.seed;
+    let ncases = cases.len();
+    let cases = std::sync::Arc::new(cases);
+    let total = ncases + nrand;
+    let chunk = 50usize;
+    let ntasks = (total + chunk - 1) / chunk;
+    let cs = cases.clone();
+    let results = par_tasks(ntasks, move |t| {
+        std::panic::set_hook(Box::new(|_| {}));
+        let mut rep = Report::default(); let mut lines = vec![];
+        for i in t * chunk..((t + 1) * chunk).min(total) {
+            let c = if i < ncases { cs[i].clone() } else { let mut rng = Rng::new(seed ^ 0xADA9 ^ ((i as u64) << 20)); gen_case(&mut rng) };
+            let (o, a) = run_case(&c, &mut rep, false);
+            if o.len() < 60000 { lines.push((o, a)); } else { rep.count("too_long_for_correspondence"); }
+        }
+        (lines, rep)
+    });
+    for (lines, r) in results { for (o, a) in lines { corr.case(&o, &a); } rep.merge(r); }
+    rep.sample("adapters W 3 q5w10 F,F,Z F - w00…,f,c <trace> -> ok50,err:WZ,ok n=… h=… acc=… enc=… bad=0 sink=…".into());
     corr.finish();
     rep.write(&args.out);
 }
